@@ -21,7 +21,8 @@ ASSUMPTIONS = ["full-column-rank diffusion (state size >= noise size) in the exa
                "state trajectory must be torch.equal to the run without logqp (same Brownian values; for diagonal noise "
                "through a column-slicing proxy)"]
 REQUIRED_COUNTERS = ["exact_runs", "generic_runs", "state_equal_checks", "additivity_checks", "diagonal_runs",
-                     "general_runs", "offgrid_output_runs", "two_output_time_runs", "renamed_prior_drift_runs"]
+                     "general_runs", "offgrid_output_runs", "two_output_time_runs", "renamed_prior_drift_runs",
+                     "two_instances_of_one_drift_class", "continued_reversible_heun_runs"]
 THRESHOLDS = {"exact_rel": 1e-11, "generic_rel": 1e-9, "additive_rel": 1e-11}
 
 
@@ -71,6 +72,31 @@ class HandAug(nn.Module):
         return torch.cat([g, torch.zeros(y.size(0), 1, g.size(-1))], dim=1)
 
 
+class Drift(nn.Module):
+    """drift(t, y) = -k y + g(t, y) c : posterior and prior are two INSTANCES of this one class (c = 0 for the prior)."""
+
+    def __init__(self, gfun, k, c, diag):
+        super().__init__()
+        self.gfun, self.k, self.c, self.diag = gfun, k, c, diag
+
+    def drift(self, t, y):
+        g = self.gfun(t, y)
+        gc = g * self.c if self.diag else torch.einsum("bij,j->bi", g, self.c)
+        return -self.k * y + gc
+
+
+class TwoInstances(nn.Module):
+    """f and h are bound methods of the same function on two different objects (f - h = g c exactly)."""
+
+    def __init__(self, base, c):
+        super().__init__()
+        self.noise_type, self.sde_type, self.m = base.noise_type, base.sde_type, base.m
+        self.g = base.g
+        self.post = Drift(base.g, 0.7, c, base.noise_type == "diagonal")
+        self.prior = Drift(base.g, 0.7, torch.zeros_like(c), base.noise_type == "diagonal")
+        self.f, self.h = self.post.drift, self.prior.drift
+
+
 def cases(tier, seed):
     reps = 1 if tier == "quick" else 40
     out = []
@@ -102,6 +128,9 @@ def run_case(case):
     if case["family"] == "exact":
         c = torch.randn(base.m, generator=gen)
         sde = ExactFamily(base, c)
+        if rng.random() < 0.3:
+            sde = TwoInstances(base, c)
+            cnt["two_instances_of_one_drift_class"] = 1
     else:
         sde = base
     t0 = rng.choice([0.0, 0.4])
@@ -146,6 +175,28 @@ def run_case(case):
         return {"violations": viol}
     if float(lq.min()) < -1e-12:
         viol.append({"mechanism": "logqp_negative", "detail": f"min {float(lq.min()):.3e} {ctx}"})
+    # reversible Heun: a solve continued from the returned extra solver state (extra=True, logqp=True on both calls)
+    # returns the same log-ratio pieces and the same states as the one-shot solve
+    if cell["method"] == "reversible_heun" and len(tsl) >= 3:
+        cut = rng.randrange(1, len(tsl) - 1)
+        bmc = bm_full()
+        ya, la, ex = zoo.solve(cell, sde, y0, ts[:cut + 1], dt, bm=bmc, logqp=True, extra=True)
+        yb, lb, _ = zoo.solve(cell, sde, ya[-1], ts[cut:], dt, bm=bmc, logqp=True, extra=True, extra_solver_state=ex)
+        cnt["continued_reversible_heun_runs"] = 1
+        lc = torch.cat([la, lb], 0)
+        e = float(((lc - lq).abs() / (lq.abs() + 1e-12)).max())
+        es = float(((torch.cat([ya, yb[1:]], 0) - ys).abs() / (1 + ys.abs())).max())
+        mx["continued_logqp_rel"] = e
+        # the cut is an output time given as a decimal float: it may differ by an ulp from the accumulated grid time of
+        # the one-shot run (Brownian increments then differ by ~sqrt(ulp)) or lie inside a step (off-grid outputs), so
+        # states / path-dependent log-ratios are compared to 1e-6 resp. 2e-2 (bit-exact restarts are C13's subject);
+        # in the exact family the log-ratio is path-independent and must agree to rounding
+        on_grid = not offgrid
+        tol_l = 1e-10 if case["family"] == "exact" else (1e-6 if on_grid else float("inf"))
+        tol_s = 1e-6 if on_grid else float("inf")  # (a cut inside a step moves the whole step grid of the second call)
+        if not (e <= tol_l and es <= tol_s):
+            viol.append({"mechanism": "logqp_of_continued_solve_differs",
+                         "detail": f"cut at output {cut}: log-ratio rel diff {e:.3e}, state diff {es:.3e} {ctx}"})
     # state undisturbed
     bm_plain = bm_full() if nt != "diagonal" else probes.ColumnSliceBrownian(bm_full(), base.m)
     ys_plain = zoo.solve(cell, sde, y0, ts, dt, bm=bm_plain)
